@@ -78,6 +78,7 @@ fn main() {
         .cloned();
 
     drive::install_panic_hook();
+    drive::start_call_watchdog(prop.to_string());
     let threads = std::thread::available_parallelism().map(|n| n.get()).unwrap_or(4);
     rayon::ThreadPoolBuilder::new()
         .num_threads(threads)
